@@ -2012,6 +2012,60 @@ def _compare_summaries(sh, key, what, a, b):
                 sh.violation(f"{key}:rates-differ", f"{what}: per-state rates differ", None)
 
 
+def _one_measure_on_grids_sharing_their_end_points(sh, spec, tag):
+    """round 8: ONE Levy-measure object handed to create_q_vector with grids of different classes that share h, the number
+    of states and both end points (uniform, geometric, base-class constructor, uniform again): each vector against the
+    closed form of a reference measure constructed now, on the cells read off that grid's own axis (a memo keyed on the
+    measure and a summary of the grid answers the second grid with the first grid's vector)."""
+    from rpylib.distribution import samplingfactory as SF
+    from rpylib.grid import spatial as S
+
+    h = 0.1
+    try:
+        nu = _make_model(spec).levy_triplet.nu
+        ref = A.make_model(_direct(spec)).levy_triplet.nu
+        makers = [
+            ("uniform", lambda: S.CTMCUniformGrid.create_from_fixed_nb_of_points(h=h, nb_of_points=6)),
+            ("geometric", lambda: S.CTMCGridGeometric.create_with_bounds(h=h, truncations=(-3 * h, 3 * h), dimension=1, nb_of_points_on_each_side=3)),
+            ("custom", lambda: S.CTMCGrid(h=h, origin_coordinate=3, axes=[np.array([-3.0, -2.5, -1.0, 0.0, 1.0, 1.5, 3.0]) * h])),
+            ("uniform-again", lambda: S.CTMCUniformGrid.create_from_fixed_nb_of_points(h=h, nb_of_points=6)),
+        ]
+        grids = [(name, mk()) for name, mk in makers]
+    except Exception as e:  # noqa
+        sh.count("one-measure-grids-not-constructible")
+        sh.note(f"one-measure-many-grids: construction raises {type(e).__name__} ({tag})")
+        return
+    shapes = {(len(g.axes[0]), float(g.axes[0][0]), float(g.axes[0][-1])) for _n, g in grids}
+    if len(shapes) != 1:
+        sh.count("one-measure-grids-do-not-share-their-end-points")
+    for name, grid in grids:
+        axis = [float(x) for x in grid.axes[0]]
+        o = int(grid.origin_coordinate.value)
+        if not _axis_ok(axis, o):
+            sh.count("malformed-grid-skipped")
+            continue
+        b, _ok = _ref_bounds(axis, o)
+        try:
+            want = {k: float(ref.integrate(b[k], b[k + 1])) for k in range(len(axis)) if k != o}
+        except Exception:  # noqa
+            sh.count("one-measure-reference-not-evaluable")
+            continue
+        try:
+            q = np.asarray(SF.create_q_vector(nu, grid), dtype=float)
+        except Exception as e:  # noqa
+            sh.violation(f"C01:history:measure:create_q_vector-raises-{type(e).__name__}-on-a-later-grid:{name}:{tag}", f"{e!r}"[:300], None)
+            return
+        lam = sum(want.values())
+        sh.count("evaluations")
+        bad = [k for k in want if not core.close(float(q[k]), want[k], rtol=1e-9, atol=1e-13 * lam)]
+        if bad:
+            k = bad[0]
+            sh.violation(f"C01:history:measure:q-vector-of-a-later-grid-is-not-the-mass-of-its-cells:{name}:{tag}",
+                         f"one measure object, grids {[n for n, _g in grids]} sharing h, size and end points: on the {name} grid (axis {axis}) "
+                         f"create_q_vector gives {float(q[k])!r} for state {k}, the measure of its cell ({b[k]!r}, {b[k + 1]!r}) is {want[k]!r} "
+                         f"({len(bad)} states differ)", {"grid": name, "k": k, "got": float(q[k]), "want": want[k]})
+
+
 def _history_model_reuse_1d(sh, case):
     """history on ONE model object: (0) after its construction a second model of the same class with other parameter values
     is built (directly and through mutate + initialisation()) and used on the 3-point grid and on the case's grid
@@ -2072,6 +2126,7 @@ def _history_model_reuse_1d(sh, case):
         return
     ref_model = A.make_model(_direct(spec))
     _oracle_1d(sh, case, model, grid, tag, refine=0, ref_model=ref_model)
+    _one_measure_on_grids_sharing_their_end_points(sh, spec, f"{fam}:one-measure-many-grids")
     _compare_summaries(sh, f"C01:history:model:chain-after-other-uses-differs-from-chain-before:{tag}",
                        "the model used on a narrow grid, a second model of its class used in between", after, before)
     _compare_summaries(sh, f"C01:history:model:chain-on-deep-copy-differs:{tag}", "deep copy of the model", cloned, before)
